@@ -22,6 +22,8 @@ CHECKS = {
          "dst/idst as validated linear-kernel stubs (tolerance 1e-9 over |p|<=64); StepExpansion grids from an enumerated concrete family (membership uses float comparisons that are not quantified over)"),
  'C14': ("with the WHOLE random stream symbolic (every draw a fresh symbol, both runs of a pair consuming one stream), symbolic initial point and uninterpreted target, for MH, CWMH, PCN, MALA, ULA (stateful interface): sample(N);sample(M) == sample(N+M) (every split of N+M<=3/4, with/without warm-up), a run checkpointed after every step 0..N+M (get_state/set_state and the pickle file) and resumed in a freshly constructed sampler continues with exactly the same transitions and final state, recorded length, callback exactly once per state with its index, stored entries never altered, reinitialize() restores the constructed configuration; legacy MH/CWMH/pCN/MALA/ULA: length N, chain starts with x0, burn-in keeps the last N of N+Nb, callback once per transition, sample_adapt likewise",
          "N+M <= 3 (quick) / 4; uniform draws in (0,1) (u=0 is decided in C02); longer runs follow by induction on the state equality at the split (stated, not proved); NUTS/RTO/UGLA/Gibbs chains are covered by the C08/C06/C09 harnesses' own continuity obligations where present"),
+ 'C16': ("CGLS/PCGLS (matrix, sparse and function operator, symbolic b, x0, shift): on every explored path the norm the stopping rule tests is the (shifted/preconditioned) normal-equation residual of the RETURNED x and norms0 that of x0, the operator forms give identical iterates, the start vector is untouched; FISTA/ISTA iterates equal the proximal-gradient map for symbolic step size and regularisation strength and an abstol exit implies ||T(y)-y|| <= abstol; LM returns (x, info) with info belonging to x (uninterpreted residual/Jacobian); SciPy wrappers hand over the given objective/gradient (negated for maximize) and return SciPy's result; ProjectNonnegative/ProjectBox/ProximalL1 satisfy the variational characterisation of the projection/prox for ALL inputs",
+         "bounded path exploration (fork budget per configuration; unexplored alternatives counted in paths_cut); 1 CGLS iteration in quick, 2 in thorough (stretch); exits through maxit or normx*tol>=1 are not convergence and outside the claim"),
  'C19': ("every stored value a distinct symbol: burnthin(Nb,Nt) for ALL 0<=Nb<=Ns+1, 1<=Nt<=Ns+1 (Ns<=5/6, dims 1-3, 2-D function values, joint sets, chained calls) returns exactly columns b, b+t, ... with flags/geometry, refuses Nb>=Ns and leaves the source untouched; mean/variance/std/median/credible bounds equal the per-coordinate definitions for ALL values (lo<=median<=hi, width = hi-lo); statistics of function-value samples are those of the converted samples; arviz receives each variable's chain unpermuted",
          "numpy.median/percentile replaced by their order-statistic definition (min/max terms); arviz replaced by a recorder"),
  'C20': ("exhaustive over sizes (1D n=2..6/8, 2D up to 3x3/4x4), boundary conditions, orders 0-2 and spacings: operator rows equal reference stencils applied to a symbolic vector, 2D = documented Kronecker stacking, precision = D^T D, symmetric, x^T P x = |Dx|^2, null space exactly the one implied by the bc (both inclusions as SMT implications), GMRF rank / sqrtprec / log-determinant consistent with the precision",
